@@ -780,7 +780,6 @@ def size_of(v):
 
 # ------------------------------------------------------------------ the check
 CLASSES = [("class_array", "array-rendered-as-list"),
-           ("class_enum", "inner-enum-unqualified"),
            ("class_imports", "import-name-collision"),
            ("class_raw_qname", "qname-text-unescaped"),
            ("class_init", "init-false-field-not-default"),
